@@ -609,8 +609,8 @@ func monitorC09(c fw.Case, outs []string) []string {
 			}
 			if tx.State != "APPLIED" && tx.State != "FAILED" {
 				fails = append(fails, fmt.Sprintf("stranded: transaction %d is %s at the fixed point with every target connected", i, tx.State))
-			} else if tx.State == "FAILED" && tx.Abort == "o" {
-				fails = append(fails, fmt.Sprintf("stranded: transaction %d is FAILED but its abort never completes", i))
+			} else if tx.State == "FAILED" && tx.Abort == "o" && abortBlocks(s, i) {
+				fails = append(fails, fmt.Sprintf("stranded: transaction %d is FAILED but its abort never completes: the indexes of a target stay behind it, later transactions of that target wait for ever", i))
 			}
 		}
 	}
@@ -770,6 +770,21 @@ func refusalWriteLostSig(c fw.Case, outs []string, msg string) bool {
 	for _, ln := range c.Script {
 		f := strings.Fields(ln)
 		if len(f) >= 2 && f[0] == "v2.run" && f[1] == actor && strings.Contains(ln, "dev=fail:") && strings.Contains(ln, "inject=") {
+			return true
+		}
+	}
+	return false
+}
+
+// abortBlocks: an unfinished abort matters to the property only while it holds a target's indexes
+// back (FAILED is final for the transaction itself): some proposal of the transaction is still
+// ABORTING and the configuration's committed or applied index has not passed it.
+func abortBlocks(s *State, tx int) bool {
+	for _, p := range s.Prop {
+		if p.Index != tx || p.Abort != "o" {
+			continue
+		}
+		if cfg := s.Cfg[p.Target]; cfg == nil || cfg.Committed < p.Index || cfg.Applied < p.Index {
 			return true
 		}
 	}
